@@ -94,7 +94,10 @@ def seek_until(reader, data: bytes):
     """
     found = reader.read(len(data))
     while found != data:
-        found = found[1:] + reader.read(1)
+        byte = reader.read(1)
+        if not byte:
+            raise EOFError(f'{data!r} was not found before the end of the stream')
+        found = found[1:] + byte
 
 
 class KdBufParser:
